@@ -16,9 +16,10 @@
 //! The plaintext written is a fixed function of the stream position, so a read reports the
 //! position of the bytes it returned instead of the bytes.
 //!
-//! After a read (write/flush) returned an error the reader (writer) is treated as fused: further
-//! reads (writes) answer `fused` without touching the socket, like every caller of an
-//! `AsyncRead`/`AsyncWrite` that gives up on the first I/O error.
+//! After a write/flush returned an error the writer is treated as fused: further writes answer
+//! `fused` without touching the socket, like every caller of an `AsyncWrite` that gives up on the
+//! first I/O error. The reader is polled again after errors (a decryption error must be reported
+//! again, never a panic).
 
 use super::{handshake, HandshakeTransport, NoiseSocket};
 use crate::{config::Role, crypto::ed25519::Keypair, verif::VerifBox};
@@ -280,7 +281,6 @@ struct Pair {
     shared: Rc<RefCell<Shared>>,
     wpos: usize,
     rpos: usize,
-    read_fused: bool,
     write_fused: bool,
 }
 
@@ -352,7 +352,6 @@ impl NoiseBox {
             shared,
             wpos: 0,
             rpos: 0,
-            read_fused: false,
             write_fused: false,
         });
         Ok(())
@@ -425,9 +424,6 @@ impl VerifBox for NoiseBox {
                 if k > (1 << 22) {
                     return "bad-op".into();
                 }
-                if p.read_fused {
-                    return "fused".into();
-                }
                 let mut buf = vec![0xEEu8; k];
                 match Pin::new(&mut p.b).poll_read(&mut cx, &mut buf) {
                     Poll::Pending => "pending".into(),
@@ -443,10 +439,7 @@ impl VerifBox for NoiseBox {
                             Some(j) => format!("ok {n} corrupt {j}"),
                         }
                     }
-                    Poll::Ready(Err(e)) => {
-                        p.read_fused = true;
-                        format!("err {}", class(&e))
-                    }
+                    Poll::Ready(Err(e)) => format!("err {}", class(&e)),
                 }
             }
             ["carrier", "deliver", k] => {
